@@ -90,3 +90,25 @@ pub fn vcd(toks: &[&str]) -> String {
     }
     load_with(toks[1], &path, &bytes)
 }
+
+/// `chunks <threads> <body_len>`: the production `determine_thread_chunks` inside a pool of the given size.
+/// Reply `covers=<bool>;<start>:<len>,...` where covers = the chunks are contiguous from 0 and reach the end of the body.
+pub fn chunks(toks: &[&str]) -> String {
+    let threads: usize = toks[1].parse().unwrap();
+    let n: usize = toks[2].parse().unwrap();
+    let pool = rayon::ThreadPoolBuilder::new().num_threads(threads).build().unwrap();
+    let cs = pool.install(|| {
+        wellen::verif::vcd::set_min_chunk_size(None);
+        wellen::verif::vcd::determine_thread_chunks(n)
+    });
+    let mut pos = 0usize;
+    let mut contiguous = !cs.is_empty();
+    for (s, l) in cs.iter() {
+        if *s != pos {
+            contiguous = false;
+        }
+        pos = s + l;
+    }
+    let covers = contiguous && pos >= n && cs.len() <= std::cmp::max(1, threads);
+    format!("covers={};{}", covers, cs.iter().map(|(s, l)| format!("{s}:{l}")).collect::<Vec<_>>().join(","))
+}
